@@ -59,7 +59,16 @@ func TestMain(m *testing.M) {
 	os.Exit(code)
 }
 
+// notMyReplay skips a leg in replay mode when the file belongs to the other leg (before the
+// collector is touched, so that the skipped leg does not rewrite the statistics file).
+func notMyReplay(t *testing.T) {
+	if leg := ev.ReplayLeg(); ev.Replaying() && leg != "" && leg != t.Name() {
+		t.Skipf("replay file is for leg %s", leg)
+	}
+}
+
 func TestC13_npm(t *testing.T) {
+	notMyReplay(t)
 	col := ev.Get("C13")
 	ev.Check(t, col, ev.Scale(6000, 8000), func(rt *rapid.T) c13Case {
 		return c13Case{Npm: genNpmCase(rt, col)}
@@ -67,6 +76,7 @@ func TestC13_npm(t *testing.T) {
 }
 
 func TestC13_pom(t *testing.T) {
+	notMyReplay(t)
 	col := ev.Get("C13")
 	ev.Check(t, col, ev.Scale(2500, 5000), func(rt *rapid.T) c13Case {
 		return c13Case{Pom: genPomCase(rt, col)}
@@ -96,6 +106,7 @@ type pomPropRec struct {
 
 type pomGen struct {
 	t      *rapid.T
+	col    *ev.Collector
 	n      int
 	files  [2]*pomFile
 	props  []pomPropRec
@@ -179,6 +190,10 @@ func (g *pomGen) version(file int, profile string) string {
 		return "${" + a + "}" + sep + "${" + b + "}"
 	case 6:
 		return "1.${" + g.propFor(file, profile, "2") + "}.0"
+	case 4:
+		if file == 0 && profile == "" && g.files[0].V != "" {
+			return "${project.version}"
+		}
 	}
 	return rapid.SampledFrom(pomVersions).Draw(g.t, "ver_lit")
 }
@@ -224,6 +239,13 @@ func (g *pomGen) layout(f *pomFile) {
 	f.NS = chance(g.t, "ns", 2, 3)
 	if chance(g.t, "header", 1, 4) {
 		f.Header = "Licensed under the Apache License, Version 2.0;\n  see <https://www.apache.org/licenses/> & NOTICE"
+		if chance(g.t, "header_project", 1, 4) {
+			if g.col != nil && g.col.IsKnown("c13.project_literal_in_prolog") {
+				g.col.Excluded("c13.project_literal_in_prolog")
+			} else {
+				f.Header = "The root element of this file is <project>; see <https://maven.apache.org/pom.html>"
+			}
+		}
 	}
 	f.Indent = rapid.SampledFrom([]string{"  ", "  ", "    ", "\t"}).Draw(g.t, "indent")
 	f.BlankLine = rapid.Bool().Draw(g.t, "blank_line")
@@ -300,7 +322,7 @@ func (g *pomGen) plugins(file int, max int) []pomPlugin {
 }
 
 func genPomCase(t *rapid.T, col *ev.Collector) *pomCase {
-	g := &pomGen{t: t}
+	g := &pomGen{t: t, col: col}
 	c := &pomCase{}
 	child := &c.Child
 	g.files[0] = child
@@ -398,6 +420,59 @@ func genPomCase(t *rapid.T, col *ev.Collector) *pomCase {
 			g.files[1].Mgmt = append(g.files[1].Mgmt, m)
 		} else {
 			child.Mgmt = append(child.Mgmt, m)
+		}
+	}
+
+	// the same package declared with a version in a second place
+	if chance(t, "duplicate_decl", 1, 6) {
+		var cands []pomDep
+		for _, d := range child.Deps {
+			if d.Ver != "" {
+				cands = append(cands, d)
+			}
+		}
+		for _, p := range child.Profiles {
+			if !p.Active {
+				cands = append(cands, p.Deps...)
+			}
+		}
+		if len(cands) > 0 {
+			d := rapid.SampledFrom(cands).Draw(t, "dup_of")
+			dup := pomDep{G: d.G, A: d.A, Type: d.Type, Classifier: d.Classifier, Ver: rapid.SampledFrom([]string{"0.1", "7.7.7", "1.0"}).Draw(t, "dup_ver")}
+			var inactive []int
+			for i, p := range child.Profiles {
+				if !p.Active {
+					inactive = append(inactive, i)
+				}
+			}
+			place := rapid.IntRange(0, 3).Draw(t, "dup_place")
+			switch {
+			case place == 1 && g.hasPar:
+				g.files[1].Mgmt = append(g.files[1].Mgmt, dup)
+			case place == 2 && len(inactive) > 0:
+				i := inactive[len(inactive)-1]
+				has := false
+				for _, x := range child.Profiles[i].Deps {
+					if x.G == dup.G && x.A == dup.A {
+						has = true
+					}
+				}
+				if !has {
+					child.Profiles[i].Deps = append(child.Profiles[i].Deps, dup)
+				}
+			case place == 3 && len(child.Plugins) > 0 && child.Plugins[0].Managed:
+				child.Plugins[0].Deps = append(child.Plugins[0].Deps, dup)
+			default:
+				has := false
+				for _, x := range child.Mgmt {
+					if x.G == dup.G && x.A == dup.A {
+						has = true
+					}
+				}
+				if !has {
+					child.Mgmt = append(child.Mgmt, dup)
+				}
+			}
 		}
 	}
 
